@@ -3,6 +3,10 @@ package checks
 import (
 	"encoding/json"
 	"fmt"
+	"reflect"
+
+	"github.com/gebn/bmc"
+	"github.com/gebn/bmc/pkg/ipmi"
 
 	"github.com/google/gopacket"
 
@@ -24,6 +28,12 @@ func init() {
 			}
 		}
 		return "unknown layer", false
+	}
+	Replayers["c17rec"] = func(raw json.RawMessage) (string, bool) {
+		var c c17RecCase
+		json.Unmarshal(raw, &c)
+		k, msg := c17RecPair(c)
+		return fmt.Sprintf("%s %s", k, msg), k != ""
 	}
 	histJudges["C17"] = c17ConnJudge
 }
@@ -106,6 +116,48 @@ func c17ConnJudge(cfg histCfg, o *histObs) []finding {
 	return out
 }
 
+// c17Records returns what cipher-suite discovery reports for the record data.
+func c17Records(data []byte) ([]string, error) {
+	cfg := defaultConfig()
+	cfg.CipherSuiteData = data
+	w := newWorld(cfg, nil, nil)
+	var recs []ipmi.CipherSuiteRecord
+	var err error
+	if p := guard(func() { recs, err = bmc.RetrieveSupportedCipherSuites(w.Ctx, w.Conn) }); p != "" {
+		return nil, fmt.Errorf("panic: %s", p)
+	}
+	var out []string
+	for _, rec := range recs {
+		out = append(out, canonNamed(reflect.ValueOf(rec)))
+	}
+	return out, err
+}
+
+type c17RecCase struct {
+	Earlier ref.CSRecord `json:"earlier"`
+	Later   ref.CSRecord `json:"later"`
+}
+
+// c17RecPair: the entries reported for a record must not depend on the record
+// listed before it (the parser walks the records with reused scratch values).
+func c17RecPair(c c17RecCase) (string, string) {
+	alone, err1 := c17Records(c.Later.Encode())
+	both, err2 := c17Records(append(c.Earlier.Encode(), c.Later.Encode()...))
+	if err1 != nil || err2 != nil {
+		return "", "" // rejecting is C16's business
+	}
+	if len(both) < len(alone) {
+		return "C17/records/later-record-lost", fmt.Sprintf("record %+v alone yields %v; after %+v the list is %v", c.Later, alone, c.Earlier, both)
+	}
+	tail := both[len(both)-len(alone):]
+	for i := range alone {
+		if tail[i] != alone[i] {
+			return "C17/records/entry-depends-on-earlier-record", fmt.Sprintf("record %+v alone yields %s; listed after %+v it yields %s", c.Later, alone[i], c.Earlier, tail[i])
+		}
+	}
+	return "", ""
+}
+
 func runC17(r *rep.R) {
 	r.SetRule("layer level: for every decodable layer, every ordered pair (earlier, later) from its shape catalogue (valid encodings per branch and optional-tail length, their all-FF / all-00 same-length variants, and every truncation of them) is decoded earlier-then-later into one value and later into a fresh value; all exported fields, contents and payload must agree. Connection level: every ordered pair of commands (first one also failed or retried, k<=1 deviations) on one connection and one session; the second command's result must equal its result on a fresh connection. distinct = distinct (layer, earlier, later) / (history, choices)")
 	reg := decLayers()
@@ -156,6 +208,40 @@ func runC17(r *rep.R) {
 						r.Sample(map[string]any{"layer": l.Name, "earlier_hex": fmt.Sprintf("%x", e), "later_hex": fmt.Sprintf("%x", la)})
 					}
 				}
+			}
+		}
+	}
+	// records of a paged list: every ordered pair of cipher-suite record shapes
+	var shapes []ref.CSRecord
+	for oem := 0; oem < 2; oem++ {
+		for ni := 0; ni < 4; ni++ {
+			for nc := 0; nc < 4; nc++ {
+				rec := ref.CSRecord{ID: byte(len(shapes) + 1), OEM: oem == 1, IANA: 0x00A2B7 + uint32(ni), Auth: byte(1 + (ni+nc)%3)}
+				for i := 0; i < ni; i++ {
+					rec.Integs = append(rec.Integs, byte(1+i))
+				}
+				for i := 0; i < nc; i++ {
+					rec.Confs = append(rec.Confs, byte(1+i))
+				}
+				shapes = append(shapes, rec)
+			}
+		}
+	}
+	for _, a := range shapes {
+		for _, b := range shapes {
+			idx++
+			if !r.Mine(idx) {
+				continue
+			}
+			c := c17RecCase{Earlier: a, Later: b}
+			k, msg := c17RecPair(c)
+			r.Eval(rep.H("recpair", fmt.Sprint(a), fmt.Sprint(b)), true)
+			r.Trace()
+			if k != "" {
+				r.Outcome("violation")
+				r.Violate(k, msg, "c17rec", c, nil)
+			} else {
+				r.Outcome("records:later-independent-of-earlier")
 			}
 		}
 	}
